@@ -5,6 +5,17 @@
 #include <shark/Models/LinearModel.h>
 #include <shark/Models/NeuronLayers.h>
 #include <shark/Models/ConcatenatedModel.h>
+#include <shark/Models/Normalizer.h>
+#include <shark/Models/Classifier.h>
+#include <shark/Models/PoolingLayer.h>
+#include <shark/Models/ResizeLayer.h>
+#include <shark/Models/RBFLayer.h>
+#include <shark/Models/CMAC.h>
+#include <shark/Models/ConvolutionalModel.h>
+#include <shark/Models/Ensemble.h>
+#include <shark/Models/Kernels/KernelExpansion.h>
+#include <shark/Models/Kernels/LinearKernel.h>
+#include <shark/Models/Kernels/GaussianRbfKernel.h>
 #include "common.hpp"
 #include <memory>
 using namespace shark;
@@ -30,13 +41,18 @@ static RealMatrix toMat(std::vector<double> const& v, std::size_t r, std::size_t
 static bool same(RealMatrix const& a, RealMatrix const& b){ if(a.size1() != b.size1() || a.size2() != b.size2()) return false; for(std::size_t i = 0; i != a.size1(); ++i) for(std::size_t j = 0; j != a.size2(); ++j) if(!(a(i,j) == b(i,j)) && !(std::isnan(a(i,j)) && std::isnan(b(i,j)))) return false; return true; }
 static bool sameV(RealVector const& a, RealVector const& b){ if(a.size() != b.size()) return false; for(std::size_t i = 0; i != a.size(); ++i) if(!(a(i) == b(i))) return false; return true; }
 
+// `probe gradient-size 0` switches the check `gradient.size() == numberOfParameters()` for a non-empty result object off
+// (finding F-C04-5: parameter-less layers leave the gradient untouched)
+static bool g_sizeProbe = true;
 // everything the property says about one model object, checked on the real code
 template<class Model>
-std::string oracle(Model& model, RealMatrix const& X, RealMatrix const& C, RealVector const& p, bool exactSingle){
+std::string oracle(Model& model, RealMatrix const& X, RealMatrix const& C, RealVector const& p, bool exactSingle, bool withDeriv = true, bool inputDeriv = true, double ptol = 0.0, bool bufferProbe = true){
 	std::string bad;
 	if(model.numberOfParameters() != p.size()) bad += " !oracle number-of-parameters";
 	model.setParameterVector(p);
-	if(!sameV(model.parameterVector(), p)) bad += " !oracle parameter-roundtrip";
+	{ RealVector q = model.parameterVector(); bool ok = q.size() == p.size();
+	  for(std::size_t i = 0; ok && i != p.size(); ++i) if(!(std::fabs(q(i) - p(i)) <= ptol * (1 + std::fabs(p(i))))) ok = false;
+	  if(!ok) bad += " !oracle parameter-roundtrip"; }
 	RealMatrix out; model.eval(X, out);
 	boost::shared_ptr<State> st = model.createState();
 	RealMatrix outS; model.eval(X, outS, *st);
@@ -53,11 +69,25 @@ std::string oracle(Model& model, RealMatrix const& X, RealMatrix const& C, RealV
 		RealMatrix X1(1, X.size2()); noalias(row(X1, 0)) = x; RealMatrix o1; model.eval(X1, o1);
 		for(std::size_t k = 0; k != o.size(); ++k) if(!(o1(0,k) == out(i,k))){ bad += " !oracle batch-composition-changes-row"; i = X.size1() - 1; break; }
 	}
+	if(!withDeriv) return bad;
 	RealVector g1, g2; RealMatrix d1, d2;
 	model.weightedParameterDerivative(X, outS, C, *st, g1);
-	model.weightedInputDerivative(X, outS, C, *st, d1);
-	model.weightedDerivatives(X, outS, C, *st, g2, d2);
-	if(!sameV(g1, g2) || !same(d1, d2)) bad += " !oracle combined-derivative-differs-from-separate";
+	if(inputDeriv){
+		model.weightedInputDerivative(X, outS, C, *st, d1);
+		model.weightedDerivatives(X, outS, C, *st, g2, d2);
+		if(!sameV(g1, g2) || !same(d1, d2)) bad += " !oracle combined-derivative-differs-from-separate";
+		// the result objects are outputs: their previous content must not matter
+		RealMatrix d3(d1.size1(), d1.size2(), 1.0);
+		if(bufferProbe) model.weightedInputDerivative(X, outS, C, *st, d3); else d3 = d1;
+		if(!same(d1, d3)) bad += " !oracle input-derivative-depends-on-previous-buffer-content";
+	}
+	RealVector g3(g1.size(), 1.0);
+	model.weightedParameterDerivative(X, outS, C, *st, g3);
+	if(!sameV(g1, g3)) bad += " !oracle parameter-derivative-depends-on-previous-buffer-content";
+	// ... nor its previous size
+	RealVector g4(model.numberOfParameters() + 2, 1.0);
+	if(g_sizeProbe) model.weightedParameterDerivative(X, outS, C, *st, g4); else g4 = g1;
+	if(g4.size() != model.numberOfParameters()) bad += " !oracle gradient-not-resized";
 	if(g1.size() != model.numberOfParameters()) bad += " !oracle gradient-size";
 	return bad;
 }
@@ -65,17 +95,18 @@ std::string oracle(Model& model, RealMatrix const& X, RealMatrix const& C, RealV
 // finite-difference search aid (independent of the Lean model): central differences of the
 // coefficient-weighted output sum w.r.t. every input entry and every parameter
 template<class Model>
-std::string fdOracle(Model& model, RealMatrix const& X, RealMatrix const& C, RealVector const& p){
+std::string fdOracle(Model& model, RealMatrix const& X, RealMatrix const& C, RealVector const& p, bool inputDeriv = true){
 	std::string bad;
 	model.setParameterVector(p);
 	boost::shared_ptr<State> st = model.createState();
 	RealMatrix out; model.eval(X, out, *st);
 	RealVector g; RealMatrix d;
 	model.weightedParameterDerivative(X, out, C, *st, g);
-	model.weightedInputDerivative(X, out, C, *st, d);
+	if(inputDeriv) model.weightedInputDerivative(X, out, C, *st, d);
 	auto objective = [&](RealMatrix const& XX){ RealMatrix o; model.eval(XX, o); double s = 0; for(std::size_t i = 0; i != o.size1(); ++i) for(std::size_t k = 0; k != o.size2(); ++k) s += C(i,k)*o(i,k); return s; };
 	double const h = 1e-5;
-	if(d.size1() == X.size1() && d.size2() == X.size2()){
+	if(!inputDeriv){}
+	else if(d.size1() == X.size1() && d.size2() == X.size2()){
 		for(std::size_t i = 0; i != X.size1() && bad.empty(); ++i) for(std::size_t j = 0; j != X.size2(); ++j){
 			RealMatrix A = X, B = X; A(i,j) += h; B(i,j) -= h;
 			double fd = (objective(A) - objective(B)) / (2*h);
@@ -216,13 +247,220 @@ static std::string concat1(std::string const& a1, std::string const& a2, bool h1
 	return "bad-op";
 }
 
+// ---------------------------------------------------------------------------------------------
+// further model types: Normalizer, Classifier, PoolingLayer, ResizeLayer, RBFLayer, KernelExpansion,
+// Ensemble, CMACMap
+static RealVector toVec(std::vector<double> const& v){ RealVector r(v.size()); for(std::size_t i = 0; i != v.size(); ++i) r(i) = v[i]; return r; }
+static std::string showLabels(blas::vector<unsigned int> const& l){ std::string s; for(std::size_t i = 0; i != l.size(); ++i){ if(i) s += ","; s += std::to_string(l(i)); } return s; }
+template<class Model>
+static RealMatrix singles(Model& m, RealMatrix const& X, std::size_t nOut){
+	RealMatrix S(X.size1(), nOut);
+	for(std::size_t i = 0; i != X.size1(); ++i){ RealVector x = row(X, i), o; m.eval(x, o); noalias(row(S, i)) = o; }
+	return S;
+}
+// normalizer hasB n B | params | X
+static std::string normalizerOp(bool hb, std::size_t n, std::size_t B, std::vector<double> const& p, std::vector<double> const& xs){
+	Normalizer<RealVector> m(n, hb);
+	RealVector pv = toVec(p); RealMatrix X = toMat(xs, B, n), C(B, n, 0.0);
+	std::string orc = oracle(m, X, C, pv, true, false);
+	m.setParameterVector(pv);
+	RealMatrix E; m.eval(X, E);
+	std::ostringstream os;
+	os << "NP=" << m.numberOfParameters() << " PV=" << showVec(m.parameterVector()) << " S=" << showMat(singles(m, X, n)) << " E=" << showMat(E) << orc;
+	return os.str();
+}
+// classifier nIn nOut hasB hasBias B probe | params of the linear decision function | bias | X
+static std::string classifierOp(std::size_t nIn, std::size_t nOut, bool hb, bool hasBias, std::size_t B, bool probe, std::vector<double> const& p, std::vector<double> const& bias, std::vector<double> const& xs){
+	Classifier<LinearModel<RealVector> > c;
+	c.decisionFunction().setStructure(nIn, nOut, hb);
+	std::string bad;
+	RealVector pv = toVec(p);
+	if(c.numberOfParameters() != pv.size()) bad += " !oracle number-of-parameters";
+	c.setParameterVector(pv);
+	if(!sameV(c.parameterVector(), pv)) bad += " !oracle parameter-roundtrip";
+	if(hasBias) c.bias() = toVec(bias);
+	RealMatrix X = toMat(xs, B, nIn);
+	blas::vector<unsigned int> R; c.eval(X, R);
+	boost::shared_ptr<State> st = c.createState();
+	blas::vector<unsigned int> RS; c.eval(X, RS, *st);
+	bool sameState = R.size() == RS.size(); for(std::size_t i = 0; sameState && i != R.size(); ++i) if(R(i) != RS(i)) sameState = false;
+	if(!sameState) bad += " !oracle state-changes-output";
+	blas::vector<unsigned int> S(B);
+	bool rowOk = true, compOk = true;
+	for(std::size_t i = 0; i != B; ++i){
+		RealVector x = row(X, i);
+		unsigned int o = 77777u;          // sentinel: a single evaluation must assign its output
+		if(probe || !hasBias){ c.eval(x, o); S(i) = o; if(o != R(i)) rowOk = false; }
+		RealMatrix X1(1, nIn); noalias(row(X1, 0)) = x; blas::vector<unsigned int> r1; c.eval(X1, r1);
+		if(r1(0) != R(i)) compOk = false;
+	}
+	if(!rowOk) bad += " !oracle batch-row-differs-from-single";
+	if(!compOk) bad += " !oracle batch-composition-changes-row";
+	std::ostringstream os;
+	os << "NP=" << c.numberOfParameters() << " PV=" << showVec(c.parameterVector()) << " R=" << showLabels(R) << bad;
+	return os.str();
+}
+// pool h w d ph pw B fd probe | X | C
+static std::string poolOp(std::size_t h, std::size_t w, std::size_t d, std::size_t ph, std::size_t pw, std::size_t B, std::vector<double> const& xs, std::vector<double> const& cs, bool distinct, bool probe){
+	PoolingLayer<RealVector> m(Shape({h, w, d}), Shape({ph, pw}));
+	std::size_t nIn = h*w*d, nOut = (h/ph)*(w/pw)*d;
+	if(xs.size() != B*nIn || cs.size() != B*nOut) return "bad-op";
+	RealMatrix X = toMat(xs, B, nIn), C = toMat(cs, B, nOut);
+	RealVector none;
+	std::string orc = oracle(m, X, C, none, true, true, true, 0.0, probe);
+	if(distinct) orc += fdOracle(m, X, C, none);
+	boost::shared_ptr<State> st = m.createState();
+	RealMatrix E; m.eval(X, E, *st);
+	RealMatrix gx; m.weightedInputDerivative(X, E, C, *st, gx);
+	std::ostringstream os;
+	os << "NP=" << m.numberOfParameters() << " S=" << showMat(singles(m, X, nOut)) << " E=" << showMat(E) << " GX=" << showMat(gx) << orc;
+	return os.str();
+}
+// resize h w d oh ow B | X | C
+static std::string resizeOp(std::size_t h, std::size_t w, std::size_t d, std::size_t oh, std::size_t ow, std::size_t B, std::vector<double> const& xs, std::vector<double> const& cs){
+	ResizeLayer<RealVector> m(Shape({h, w, d}), Shape({oh, ow}));
+	std::size_t nIn = h*w*d, nOut = oh*ow*d;
+	if(xs.size() != B*nIn || cs.size() != B*nOut) return "bad-op";
+	RealMatrix X = toMat(xs, B, nIn), C = toMat(cs, B, nOut);
+	RealVector none;
+	std::string orc = oracle(m, X, C, none, true);
+	orc += fdOracle(m, X, C, none);
+	boost::shared_ptr<State> st = m.createState();
+	RealMatrix E; m.eval(X, E, *st);
+	RealMatrix gx; m.weightedInputDerivative(X, E, C, *st, gx);
+	std::ostringstream os;
+	os << "NP=" << m.numberOfParameters() << " S=" << showMat(singles(m, X, nOut)) << " E=" << showMat(E) << " GX=" << showMat(gx) << orc;
+	return os.str();
+}
+// rbf nIn nOut trainCenters trainWidth B | centers | log gamma | X | C
+static std::string rbfOp(std::size_t nIn, std::size_t nOut, bool tc, bool tw, std::size_t B, std::vector<double> const& cen, std::vector<double> const& lg, std::vector<double> const& xs, std::vector<double> const& cs){
+	if(cen.size() != nIn*nOut || lg.size() != nOut || xs.size() != B*nIn || cs.size() != B*nOut) return "bad-op";
+	RBFLayer m(nIn, nOut);
+	RealVector all(nIn*nOut + nOut);
+	for(std::size_t i = 0; i != cen.size(); ++i) all(i) = cen[i];
+	for(std::size_t i = 0; i != nOut; ++i) all(cen.size() + i) = lg[i];
+	m.setTrainingParameters(true, true); m.setParameterVector(all);
+	m.setTrainingParameters(tc, tw);
+	RealVector pv((tc ? nIn*nOut : 0) + (tw ? nOut : 0));
+	{ std::size_t q = 0; if(tc) for(std::size_t i = 0; i != cen.size(); ++i) pv(q++) = cen[i]; if(tw) for(std::size_t i = 0; i != nOut; ++i) pv(q++) = lg[i]; }
+	RealMatrix X = toMat(xs, B, nIn), C = toMat(cs, B, nOut);
+	std::string orc = oracle(m, X, C, pv, true, true, false, 1e-12);
+	orc += fdOracle(m, X, C, pv, false);
+	m.setParameterVector(pv);
+	boost::shared_ptr<State> st = m.createState();
+	RealMatrix E; m.eval(X, E, *st);
+	RealVector gp; m.weightedParameterDerivative(X, E, C, *st, gp);
+	std::ostringstream os;
+	os << "NP=" << m.numberOfParameters() << " TPV=" << showVec(m.parameterVector()) << " TS=" << showMat(singles(m, X, nOut)) << " TE=" << showMat(E) << " GP=" << showVec(gp) << orc;
+	return os.str();
+}
+// kexp <linear|gauss> gamma nIn nBasis nOut hasB basisBatch B | basis | params | X
+static std::string kexpOp(std::string const& kern, double gamma, std::size_t nIn, std::size_t nBasis, std::size_t nOut, bool hb, std::size_t bb, std::size_t B, std::vector<double> const& bs, std::vector<double> const& p, std::vector<double> const& xs, bool exact){
+	if(bs.size() != nBasis*nIn || xs.size() != B*nIn || p.size() != nBasis*nOut + (hb ? nOut : 0)) return "bad-op";
+	LinearKernel<RealVector> lin; GaussianRbfKernel<RealVector> gauss(gamma);
+	AbstractKernelFunction<RealVector>* k = kern == "linear" ? (AbstractKernelFunction<RealVector>*)&lin : (AbstractKernelFunction<RealVector>*)&gauss;
+	std::vector<RealVector> pts(nBasis, RealVector(nIn));
+	for(std::size_t s = 0; s != nBasis; ++s) for(std::size_t j = 0; j != nIn; ++j) pts[s](j) = bs[s*nIn + j];
+	Data<RealVector> basis = createDataFromRange(pts, bb);
+	KernelExpansion<RealVector> m(k, basis, hb, nOut);
+	RealVector pv = toVec(p); RealMatrix X = toMat(xs, B, nIn), C(B, nOut, 0.0);
+	std::string orc = oracle(m, X, C, pv, exact, false);
+	m.setParameterVector(pv);
+	RealMatrix E; m.eval(X, E);
+	std::ostringstream os;
+	os << "NP=" << m.numberOfParameters() << " PV=" << showVec(m.parameterVector()) << (exact ? " S=" : " TS=") << showMat(singles(m, X, nOut)) << (exact ? " E=" : " TE=") << showMat(E) << orc;
+	return os.str();
+}
+// ensemble <mean|vote> M nIn nOut hasB B | weights | params of all members | X
+static std::string ensembleOp(std::string const& kind, std::size_t M, std::size_t nIn, std::size_t nOut, bool hb, std::size_t B, std::vector<double> const& ws, std::vector<double> const& p, std::vector<double> const& xs){
+	std::size_t np = nOut*nIn + (hb ? nOut : 0);
+	if(ws.size() != M || p.size() != M*np || xs.size() != B*nIn) return "bad-op";
+	RealMatrix X = toMat(xs, B, nIn);
+	std::ostringstream os; std::string bad;
+	if(kind == "mean"){
+		Ensemble<LinearModel<RealVector> > e;
+		for(std::size_t m = 0; m != M; ++m){
+			LinearModel<RealVector> lm(nIn, nOut, hb); RealVector lp(np); for(std::size_t i = 0; i != np; ++i) lp(i) = p[m*np + i];
+			lm.setParameterVector(lp); e.addModel(lm, ws[m]);
+		}
+		RealMatrix C(B, nOut, 0.0); RealVector none;
+		bad = oracle(e, X, C, none, true, false);
+		RealMatrix E; e.eval(X, E);
+		os << "NP=" << e.numberOfParameters() << " S=" << showMat(singles(e, X, nOut)) << " E=" << showMat(E) << bad;
+	}else{
+		Ensemble<LinearClassifier<RealVector> > e;
+		for(std::size_t m = 0; m != M; ++m){
+			LinearClassifier<RealVector> lc; lc.setStructure(nIn, nOut, hb);
+			RealVector lp(np); for(std::size_t i = 0; i != np; ++i) lp(i) = p[m*np + i];
+			lc.setParameterVector(lp); e.addModel(lc, ws[m]);
+		}
+		if(e.numberOfParameters() != 0) bad += " !oracle number-of-parameters";
+		blas::vector<unsigned int> R; e.eval(X, R);
+		RealMatrix V; e.decisionFunction().eval(X, V);
+		bool rowOk = true, compOk = true;
+		for(std::size_t i = 0; i != B; ++i){
+			RealVector x = row(X, i); unsigned int o = 77777u; e.eval(x, o); if(o != R(i)) rowOk = false;
+			RealMatrix X1(1, nIn); noalias(row(X1, 0)) = x; blas::vector<unsigned int> r1; e.eval(X1, r1); if(r1(0) != R(i)) compOk = false;
+		}
+		if(!rowOk) bad += " !oracle batch-row-differs-from-single";
+		if(!compOk) bad += " !oracle batch-composition-changes-row";
+		os << "NP=" << e.numberOfParameters() << " V=" << showMat(V) << " R=" << showLabels(R) << bad;
+	}
+	return os.str();
+}
+// cmac nIn nOut tilings tiles B | lower upper | params | X | C
+static std::string cmacOp(std::size_t nIn, std::size_t nOut, std::size_t tilings, std::size_t tiles, std::size_t B, double lower, double upper, std::vector<double> const& p, std::vector<double> const& xs, std::vector<double> const& cs){
+	CMACMap m; m.setStructure(Shape({nIn}), Shape({nOut}), tilings, tiles, lower, upper, false);
+	if(xs.size() != B*nIn || cs.size() != B*nOut) return "bad-op";
+	if(p.size() != m.numberOfParameters()){ std::ostringstream os; os << "NP=" << m.numberOfParameters() << " bad-parameter-count"; return os.str(); }
+	RealVector pv = toVec(p); RealMatrix X = toMat(xs, B, nIn), C = toMat(cs, B, nOut);
+	std::string orc = oracle(m, X, C, pv, true, true, false);
+	m.setParameterVector(pv);
+	boost::shared_ptr<State> st = m.createState();
+	RealMatrix E; m.eval(X, E, *st);
+	RealVector gp; m.weightedParameterDerivative(X, E, C, *st, gp);
+	// the map is linear in its parameters: the gradient must be the exact difference quotient
+	for(std::size_t q = 0; q != pv.size() && q < 64; ++q){
+		RealVector a = pv; a(q) += 1.0; m.setParameterVector(a); RealMatrix o; m.eval(X, o);
+		double diff = 0; for(std::size_t i = 0; i != B; ++i) for(std::size_t k = 0; k != nOut; ++k) diff += C(i,k) * (o(i,k) - E(i,k));
+		if(!(std::fabs(diff - gp(q)) <= 1e-9 * (1 + std::fabs(diff)))){ orc += " !oracle parameter-derivative-differs-from-finite-differences"; break; }
+	}
+	m.setParameterVector(pv);
+	std::ostringstream os;
+	os << "NP=" << m.numberOfParameters() << " PV=" << showVec(m.parameterVector()) << " S=" << showMat(singles(m, X, nOut)) << " E=" << showMat(E) << " GP=" << showVec(gp) << orc;
+	return os.str();
+}
+// conv <act> valid h w c nf fh fw B probe | params (filters [f][dy][dx][channel], then offsets) | X | C
+template<class Act>
+static std::string convOp(bool valid, std::size_t h, std::size_t w, std::size_t c, std::size_t nf, std::size_t fh, std::size_t fw, std::size_t B, std::vector<double> const& p, std::vector<double> const& xs, std::vector<double> const& cs, bool kinky, bool exact, bool probe){
+	Conv2DModel<RealVector, Act> m(Shape({h, w, c}), Shape({nf, fh, fw}), valid ? Padding::Valid : Padding::ZeroPad);
+	std::size_t nIn = h*w*c, nOut = m.outputShape().numElements();
+	if(p.size() != m.numberOfParameters() || xs.size() != B*nIn || cs.size() != B*nOut) return "bad-op";
+	RealVector pv = toVec(p); RealMatrix X = toMat(xs, B, nIn), C = toMat(cs, B, nOut);
+	// probe = 0: the input derivative (finding F-C04-4) is left out, everything else is still checked
+	std::string orc = oracle(m, X, C, pv, exact, true, probe);
+	if(!kinky) orc += fdOracle(m, X, C, pv, probe);
+	m.setParameterVector(pv);
+	boost::shared_ptr<State> st = m.createState();
+	RealMatrix E; m.eval(X, E, *st);
+	RealVector gp; RealMatrix gx;
+	m.weightedParameterDerivative(X, E, C, *st, gp);
+	if(probe) m.weightedInputDerivative(X, E, C, *st, gx);
+	std::ostringstream os;
+	os << "NP=" << m.numberOfParameters() << " PV=" << showVec(m.parameterVector()) << (exact ? " S=" : " TS=") << showMat(singles(m, X, nOut)) << (exact ? " E=" : " TE=") << showMat(E)
+	   << " GP=" << showVec(gp) << " GX=" << (probe ? showMat(gx) : std::string("-")) << orc;
+	return os.str();
+}
+static bool natsFrom(std::vector<std::string> const& t, std::size_t from, std::size_t count, std::vector<std::size_t>& d){ return t.size() == from + count && vh::allNat(t, from, d) && d.size() == count; }
+
 int main(){
 	std::string line; bool floatMode = false;
 	while(std::getline(std::cin, line)){
 		auto secs = sections(line);
 		if(secs.size() == 1 && secs[0].size() == 2 && secs[0][0] == "mode"){ floatMode = secs[0][1] == "float"; std::cout << "ok\n"; continue; }
+		if(secs.size() == 1 && secs[0].size() == 3 && secs[0][0] == "probe"){ if(secs[0][1] == "gradient-size") g_sizeProbe = secs[0][2] == "1"; std::cout << "ok\n"; continue; }
 		std::string out = "bad-op";
-		std::vector<double> p, xs, cs; std::vector<std::size_t> d;
+		std::vector<double> p, xs, cs, q2; std::vector<std::size_t> d;
 		if(secs.size() == 4 && secs[0].size() == 6 && secs[0][0] == "dense" && vh::allNat(secs[0], 2, d) && d.size() == 4 && nums(secs[1], p) && nums(secs[2], xs) && nums(secs[3], cs)){
 			std::string act = secs[0][1]; bool hb = d[0] == 1; std::size_t nIn = d[1], nOut = d[2], B = d[3];
 			if(p.size() == nOut*nIn + (hb ? nOut : 0) && xs.size() == B*nIn && cs.size() == B*nOut){
@@ -240,6 +478,32 @@ int main(){
 				out = concat1(h[1], h[3], h1, h2, nIn, nHid, nOut, B, p, xs, cs);
 		}else if(secs.size() == 5 && secs[0].size() == 3 && secs[0][0] == "chain" && nums(secs[2], p) && nums(secs[3], xs) && nums(secs[4], cs)){
 			out = chain(std::stoul(secs[0][1]), std::stoul(secs[0][2]), secs[1], p, xs, cs);
+		}else if(secs.size() == 3 && secs[0][0] == "normalizer" && natsFrom(secs[0], 1, 3, d) && nums(secs[1], p) && nums(secs[2], xs)){
+			if(p.size() == d[1] + (d[0] ? d[1] : 0) && xs.size() == d[2]*d[1]) out = normalizerOp(d[0] == 1, d[1], d[2], p, xs);
+		}else if(secs.size() == 4 && secs[0][0] == "classifier" && natsFrom(secs[0], 1, 6, d) && nums(secs[1], p) && nums(secs[2], cs) && nums(secs[3], xs)){
+			if(p.size() == d[1]*d[0] + (d[2] ? d[1] : 0) && xs.size() == d[4]*d[0] && cs.size() == (d[3] ? d[1] : 0)) out = classifierOp(d[0], d[1], d[2] == 1, d[3] == 1, d[4], d[5] == 1, p, cs, xs);
+		}else if(secs.size() == 2 && secs[0].size() == 2 && secs[0][0] == "argmax" && nums(secs[1], xs)){
+			if(xs.size() == std::stoul(secs[0][1]) && !xs.empty()){ RealVector z = toVec(xs); out = "R=" + std::to_string(arg_max(z)); }
+		}else if(secs.size() == 3 && secs[0][0] == "pool" && natsFrom(secs[0], 1, 8, d) && nums(secs[1], xs) && nums(secs[2], cs)){
+			if(d[3] > 0 && d[4] > 0) out = poolOp(d[0], d[1], d[2], d[3], d[4], d[5], xs, cs, d[6] == 1, d[7] == 1);
+		}else if(secs.size() == 3 && secs[0][0] == "resize" && natsFrom(secs[0], 1, 6, d) && nums(secs[1], xs) && nums(secs[2], cs)){
+			out = resizeOp(d[0], d[1], d[2], d[3], d[4], d[5], xs, cs);
+		}else if(secs.size() == 5 && secs[0][0] == "rbf" && natsFrom(secs[0], 1, 5, d) && nums(secs[1], p) && nums(secs[2], q2) && nums(secs[3], xs) && nums(secs[4], cs)){
+			out = rbfOp(d[0], d[1], d[2] == 1, d[3] == 1, d[4], p, q2, xs, cs);
+		}else if(secs.size() == 4 && secs[0].size() == 9 && secs[0][0] == "kexp" && vh::allNat(secs[0], 3, d) && d.size() == 6 && nums(secs[1], q2) && nums(secs[2], p) && nums(secs[3], xs)){
+			double gamma; if(parseDy(secs[0][2], gamma)) out = kexpOp(secs[0][1], gamma, d[0], d[1], d[2], d[3] == 1, d[4], d[5], q2, p, xs, secs[0][1] == "linear");
+		}else if(secs.size() == 4 && secs[0].size() == 7 && secs[0][0] == "ensemble" && vh::allNat(secs[0], 2, d) && d.size() == 5 && nums(secs[1], q2) && nums(secs[2], p) && nums(secs[3], xs)){
+			out = ensembleOp(secs[0][1], d[0], d[1], d[2], d[3] == 1, d[4], q2, p, xs);
+		}else if(secs.size() == 4 && secs[0].size() == 11 && secs[0][0] == "conv" && vh::allNat(secs[0], 2, d) && d.size() == 9 && nums(secs[1], p) && nums(secs[2], xs) && nums(secs[3], cs)){
+			std::string act = secs[0][1];
+			if(d[1] >= d[5] && d[2] >= d[6] && d[5] >= 1 && d[6] >= 1 && d[3] >= 1 && d[4] >= 1){
+				if(act == "linear") out = convOp<LinearNeuron>(d[0] == 1, d[1], d[2], d[3], d[4], d[5], d[6], d[7], p, xs, cs, false, true, d[8] == 1);
+				else if(act == "rectifier") out = convOp<RectifierNeuron>(d[0] == 1, d[1], d[2], d[3], d[4], d[5], d[6], d[7], p, xs, cs, true, true, d[8] == 1);
+				else if(act == "tanh") out = convOp<TanhNeuron>(d[0] == 1, d[1], d[2], d[3], d[4], d[5], d[6], d[7], p, xs, cs, false, false, d[8] == 1);
+				else if(act == "logistic") out = convOp<LogisticNeuron>(d[0] == 1, d[1], d[2], d[3], d[4], d[5], d[6], d[7], p, xs, cs, false, false, d[8] == 1);
+			}
+		}else if(secs.size() == 5 && secs[0][0] == "cmac" && natsFrom(secs[0], 1, 5, d) && nums(secs[1], q2) && q2.size() == 2 && nums(secs[2], p) && nums(secs[3], xs) && nums(secs[4], cs)){
+			if(d[3] >= 2 && d[2] >= 1) out = cmacOp(d[0], d[1], d[2], d[3], d[4], q2[0], q2[1], p, xs, cs);
 		}else if(secs.size() == 3 && secs[0].size() == 4 && secs[0][0] == "rowact" && nums(secs[1], xs) && nums(secs[2], cs)){
 			std::size_t n = std::stoul(secs[0][2]), B = std::stoul(secs[0][3]);
 			if(xs.size() == n*B && cs.size() == n*B){
